@@ -5,6 +5,7 @@
 #ifndef C18_BODIES_H
 #define C18_BODIES_H
 #include "mc.h"
+#include <sys/stat.h>
 #ifndef LIB
 #define LIB(x) x
 #endif
@@ -116,9 +117,11 @@ static void body_run(tctx *t)
     LIB(rc = econf_getBoolValue(kf, NULL, "flag", &b)); sb_printf(&t->out, "flag rc=%d %d\n", (int)rc, (int)b);
     LIB(rc = econf_getDoubleValue(kf, NULL, "num", &dv)); sb_printf(&t->out, "num rc=%d %g\n", (int)rc, dv);
     LIB(rc = econf_getStringValueDef(kf, "sec", "missing", &s, (char *)"dflt")); sb_printf(&t->out, "def rc=%d %s\n", (int)rc, s ? s : ""); free(s);
+    snprintf(p, sizeof p, "%s/p1.out", t->dir); unlink(p);      /* created anew in every run: its mode is part of the result */
     LIB(rc = econf_writeFile(kf, t->dir, "p1.out")); sb_printf(&t->out, "write rc=%d\n", (int)rc);
     snprintf(p, sizeof p, "%s/p1.out", t->dir);
     size_t n = 0; char *w = mc_read_file(p, &n); if (w) { sb_put_esc(&t->out, w, n); free(w); } sb_putc(&t->out, '\n');
+    { struct stat sb; if (stat(p, &sb) == 0) sb_printf(&t->out, "mode of the written file %o\n", (unsigned)(sb.st_mode & 07777)); }
     if (body_lite) break;
     { char dl[2] = { B_DELIM[t->instance & 1][0], 0 }, cm[2] = { B_COMM[t->instance & 1][0], 0 };
       LIB(rc = econf_readFile(&kf2, p, dl, cm)); sb_printf(&t->out, "reread rc=%d\n", (int)rc); }
@@ -167,9 +170,11 @@ static void body_run(tctx *t)
     char tag[64]; snprintf(tag, sizeof tag, "%s", strrchr(t->dir, '/') + 1);
     LIB(econf_setStringValue(kf, "W", "who", tag)); LIB(econf_setIntValue(kf, NULL, "n", 7));
     LIB(rc = econf_writeFile(kf, t->dir, "blocked.out")); sb_printf(&t->out, "write onto a directory rc=%d\n", (int)rc);
+    snprintf(p, sizeof p, "%s/p6.out", t->dir); unlink(p);
     LIB(rc = econf_writeFile(kf, t->dir, "p6.out")); sb_printf(&t->out, "write rc=%d\n", (int)rc);
     snprintf(p, sizeof p, "%s/p6.out", t->dir);
     size_t n = 0; char *w = mc_read_file(p, &n); if (w) { sb_put_esc(&t->out, w, n); free(w); } sb_putc(&t->out, '\n');
+    { struct stat sb; if (stat(p, &sb) == 0) sb_printf(&t->out, "mode of the written file %o\n", (unsigned)(sb.st_mode & 07777)); }
     break; }
   default: {
     snprintf(p, sizeof p, "%s/bad.conf", t->dir);
